@@ -36,7 +36,7 @@ U = [
     ("absent", NOTHING), ("null", None), ("true", True), ("false", False), ("0", 0), ("1", 1), ("-1", -1), ("1.0", 1.0),
     ("0.5", 0.5), ("''", ""), ("'a'", "a"), ("'b'", "b"), ("'1'", "1"), ("[]", []), ("[1]", [1]), ("[true]", [True]),
     ("[1.0]", [1.0]), ("[[1]]", [[1]]), ("[[true]]", [[True]]), ("{}", {}), ("{a:1}", {"a": 1}), ("{a:true}", {"a": True}),
-    ("{a:[1]}", {"a": [1]}), ("{a:[true]}", {"a": [True]}),
+    ("{a:[1]}", {"a": [1]}), ("{a:[true]}", {"a": [True]}), ("-0.0", -0.0), ("1e308", 1e308), ("2^53-1", 9007199254740991), ("[0]", [0]), ("[-0.0]", [-0.0]),
 ]
 OPS = ["==", "!=", "<", "<=", ">", ">="]
 
